@@ -74,7 +74,7 @@ Proof.
     split; [discriminate|]. split; [|discriminate]. intros _.
     rewrite (visr_lit k _ Hwk). change (dtok 58 :: gap g ++ pre) with ([dtok 58] ++ gap g ++ pre).
     rewrite !visr_app, visr_gap. change (visr [dtok 58]) with [dT 58]. cbn [app].
-    apply (as_value fparse crank (eq [b]) (eq [b]) (litT k) kv (dT 58)); [apply lit_litv; assumption|apply dl_dT|apply IHv, Hna].
+    apply (as_value fparse crank (eq [b]) (eq [b]) (fun _ => False) (litT k) kv (dT 58)); [apply lit_litv; assumption|apply dl_dT|apply IHv, Hna].
   - cbn [wf] in Hw. apply andb_true_iff in Hw as [Hw _]. apply andb_true_iff in Hw as [Hwf _].
     destruct (IH Hwf) as (_ & IHa & IHc).
     assert (C : sc b (visr (dtok 91 :: pre) ++ [b])).
@@ -95,10 +95,10 @@ Proof.
         destruct (forallb_app_inv _ _ _ Hra) as [Hba Hxa]; cbn [map forallb snd] in Hxa; apply andb_true_iff in Hxa as [Hxa _].
       - destruct (proj2 (gtoks_derive fparse crank f Hwf vf Hf) Hfa) as (ka & kb & -> & Da).
         destruct (inline_assocs_D fparse crank before (all_GD before) Hwb Hba vsb Hb) as (kvs & _ & Dk).
-        apply (cs_later_assoc fparse crank (eq [b]) (eq [b]) (dT 91) (visr (gtoks f)) (ka, kb) (visr (flat_map item_i before)) kvs (dT 44));
+        apply (cs_later_assoc fparse crank (eq [b]) (eq [b]) (fun _ => False) (dT 91) (visr (gtoks f)) (ka, kb) (visr (flat_map item_i before)) kvs (dT 44));
           auto using dl_dT. apply IHa. left. exact Hxa.
       - apply negb_true_iff in Hxa.
-        apply (cs_later_value fparse crank (eq [b]) (eq [b]) (dT 91) (visr (gtoks f)) vf (visr (flat_map item_i before)) vsb (dT 44));
+        apply (cs_later_value fparse crank (eq [b]) (eq [b]) (fun _ => False) (dT 91) (visr (gtoks f)) vf (visr (flat_map item_i before)) vsb (dT 44));
           auto using dl_dT.
         + apply (proj1 (proj1 (gtoks_derive fparse crank f Hwf vf Hf) Hfa)).
         + apply (inline_vals_D fparse crank before (all_GD before) Hwb Hba vsb Hb).
@@ -127,10 +127,10 @@ Proof.
           destruct (forallb_app_inv _ _ _ Hra) as [Hba Hxa]; cbn [map forallb snd] in Hxa; apply andb_true_iff in Hxa as [Hxa _].
         + destruct (proj2 (gtoks_derive fparse crank y Hwy vy Ey) Hfa) as (ka & kb & -> & Da).
           destruct (multi_assocs_D fparse crank ys (all_GD ys) Hwys Hba vs' Es) as (kvs & _ & Dk).
-          apply (cs_multi_later_assoc fparse crank (eq [b]) (eq [b]) (dT 91) eolT (visr (gtoks y)) (ka, kb) (visr (flat_map item_m ys) ++ [eolT]) kvs);
+          apply (cs_multi_later_assoc fparse crank (eq [b]) (eq [b]) (fun _ => False) (dT 91) eolT (visr (gtoks y)) (ka, kb) (visr (flat_map item_m ys) ++ [eolT]) kvs);
             [apply dl_dT|apply eolt_eolT|exact Da|exact Dk|apply IHa; left; exact Hxa].
         + apply negb_true_iff in Hxa.
-          apply (cs_multi_later_value fparse crank (eq [b]) (eq [b]) (dT 91) eolT (visr (gtoks y)) vy (visr (flat_map item_m ys) ++ [eolT]) vs');
+          apply (cs_multi_later_value fparse crank (eq [b]) (eq [b]) (fun _ => False) (dT 91) eolT (visr (gtoks y)) vy (visr (flat_map item_m ys) ++ [eolT]) vs');
             [apply dl_dT|apply eolt_eolT| | |apply IHv, Hxa].
           * apply (proj1 (proj1 (gtoks_derive fparse crank y Hwy vy Ey) Hfa)).
           * apply (multi_vals_D fparse crank ys (all_GD ys) Hwys Hba vs' Es). }
